@@ -214,6 +214,55 @@ func (pc *pCtx) p8Frames(only string) {
 					}
 				}
 			}
+			// (e) a batch taken out of a cell and delivered: what is put back into the cell must not share its array
+			// (buffer = buffer[len(buffer):] keeps the spare capacity of the delivered batch: the next appends, and the
+			// consumer's own appends, then write the same memory)
+			nBatch := 0
+			for _, b := range fn.Blocks {
+				for _, ins := range b.Instrs {
+					call, ok := ins.(*ssa.Call)
+					if !ok || !call.Common().IsInvoke() || (call.Common().Method.Name() != "NextWithContext" && call.Common().Method.Name() != "Next") {
+						continue
+					}
+					args := call.Common().Args
+					if len(args) == 0 {
+						continue
+					}
+					val := args[len(args)-1]
+					if _, ok := val.Type().Underlying().(*types.Slice); !ok {
+						continue
+					}
+					ld, ok := val.(*ssa.UnOp)
+					if !ok || ld.Op != token.MUL {
+						continue
+					}
+					nBatch++
+					shared := ""
+					// stores back into the same cell (same address value, or another load path to the same cell) of a sub-slice of it
+					for _, b2 := range fn.Blocks {
+						for _, i2 := range b2.Instrs {
+							st, ok := i2.(*ssa.Store)
+							if !ok {
+								continue
+							}
+							sl, ok := st.Val.(*ssa.Slice)
+							if !ok {
+								continue
+							}
+							src, ok := sl.X.(*ssa.UnOp)
+							if !ok || src.Op != token.MUL {
+								continue
+							}
+							if src.X == ld.X && st.Addr == ld.X {
+								shared = fmt.Sprintf("the cell is re-assigned a sub-slice of the delivered batch (%s)", pc.pos(st.Pos()))
+							}
+						}
+					}
+					pc.add([]string{"C04", "C05", "C16", "C18"}, fmt.Sprintf("P8/%s/delivered-batch#%d-does-not-share-its-array-with-the-buffer", name, nBatch),
+						"a batch taken out of a cell and delivered downstream does not share its array with what is put back into the cell", shared == "",
+						shared, pc.pos(ins.Pos()))
+				}
+			}
 			// (a) a delivered slice shares its array with a buffer re-filled by the same loop
 			nEmit := 0
 			for _, b := range fn.Blocks {
